@@ -328,7 +328,7 @@ class C10(SigBase):
         trees = self.tree_family(rng, 300 if ctx.tier == "quick" else 6000)
         self.n_trees = len(trees)
         cases += trees
-        n = 1400 if ctx.tier == "quick" else 40000
+        n = 2000 if ctx.tier == "quick" else 40000
         for _ in range(n):
             cases.append(self.gen(rng))
         self.n_gen = n
@@ -542,7 +542,7 @@ class C11(SigBase):
         trees = self.tree_family(rng, 300 if ctx.tier == "quick" else 6000)
         self.n_trees = len(trees)
         cases += trees
-        n = 1400 if ctx.tier == "quick" else 40000
+        n = 2000 if ctx.tier == "quick" else 40000
         for _ in range(n):
             cases.append(self.gen(rng))
         self.n_gen = n
@@ -748,6 +748,9 @@ class C11(SigBase):
     def fixed_cases(self):
         return [
             "Bet;M30;L0:cn0 cn1 ir0=0 kr0;H0k0:cs1=e3 cs0=s cs0=c cs0=k9;H0i0:-/-/iu0",
+            # two loop threads delivering at the same time: thread 0 is inside a handler (which spawns) while thread 1's
+            # delivery loop ends (minimised from the run that exposed seed C11_7: a process-wide handled_wait_interest)
+            "Bet;M240;Z00001111111112121010101010222121212222000000011200000000000000001112222222221111;L0:cn0 cn2 cs0=k15 kr0 ir2=0 is1=5.s;H0k0:cs5=k9;H0i1:is0=4.s/-/-;L1:ir0=2;P2:cs2=s y",
             # D1 shape: a stranger terminates while an interest for another child is registered
             "Bet;M30;L0:cn0 cn1 ir0=0 kr0 tr7+5000000;H0k0:cs1=k9;H0t7:iu0",
             "Bet;M30;L0:cn0 ir0=0 kr0 tr7+5000000;H0k0:cs0=e0;H0i0:ik0=15 iu0",
